@@ -364,8 +364,10 @@ var c04ExtraAddrs = []string{
 }
 
 var c04MACs = []string{
-	"\x02\x00\x00\x00\x00\x01", "\x02\x00\x00\x00\x00\x02", "\x00\x11\x22\x33\x44\x55\x66\x77",
+	"\x02\x00\x00\x00\x00\x01", "\x02\x00\x00\x00\x00\x02", "\x02\x00\x00\x00\x00\x09", "\xaa\xbb\xcc\xdd\xee\xff",
+	"\x00\x11\x22\x33\x44\x55\x66\x77", "\x00\x11\x22\x33\x44\x55\x66\x78",
 	"\x00\x00\x00\x00\xfe\x80\x00\x00\x00\x00\x00\x00\x02\x00\x5e\x10\x00\x00\x00\x01",
+	"\x00\x00\x00\x00\xfe\x80\x00\x00\x00\x00\x00\x00\x02\x00\x5e\x10\x00\x00\x00\x02",
 }
 
 const c04BadMAC = "\x02\x00\x00\x00\x00\x01\x07" // 7 bytes: macToKey panics
@@ -417,6 +419,183 @@ func (c *c04GenClient) fields() (f []string) {
 	}
 
 	return append(f, vutil.Itoa(c.svc), vutil.Itoa(c.ssObj), vutil.Itoa(c.tags))
+}
+
+// ids returns the identifiers of kind k (0 IP, 1 subnet, 2 MAC, 3 ClientID) as keys.
+func (c *c04GenClient) ids(k int) (keys []string) {
+	switch k {
+	case 0:
+		for _, ip := range c.ips {
+			keys = append(keys, "i"+ip.String())
+		}
+	case 1:
+		for _, p := range c.subs {
+			keys = append(keys, "s"+p.String())
+		}
+	case 2:
+		for _, m := range c.macs {
+			keys = append(keys, "m"+m)
+		}
+	default:
+		for _, id := range c.cids {
+			keys = append(keys, "c"+id)
+		}
+	}
+
+	return keys
+}
+
+func (c *c04GenClient) allIDs() (keys []string) {
+	for k := 0; k < 4; k++ {
+		keys = append(keys, c.ids(k)...)
+	}
+
+	return keys
+}
+
+// addID appends the identifier with the given key at position pos of its kind.
+func (c *c04GenClient) addID(key string, pos int) {
+	ins := func(n int) int {
+		if pos < 0 || pos > n {
+			return n
+		}
+
+		return pos
+	}
+	switch key[0] {
+	case 'i':
+		i := ins(len(c.ips))
+		c.ips = append(c.ips[:i:i], append([]netip.Addr{netip.MustParseAddr(key[1:])}, c.ips[i:]...)...)
+	case 's':
+		i := ins(len(c.subs))
+		c.subs = append(c.subs[:i:i], append([]netip.Prefix{netip.MustParsePrefix(key[1:])}, c.subs[i:]...)...)
+	case 'm':
+		i := ins(len(c.macs))
+		c.macs = append(c.macs[:i:i], append([]string{key[1:]}, c.macs[i:]...)...)
+	default:
+		i := ins(len(c.cids))
+		c.cids = append(c.cids[:i:i], append([]string{key[1:]}, c.cids[i:]...)...)
+	}
+}
+
+// c04Shadow is the generator's own rough idea of the registry.  It only steers
+// the generation (which client owns what); nothing is compared with it.
+type c04Shadow struct{ byName map[string]*c04GenClient }
+
+func (sh *c04Shadow) owner(key string, except *c04GenClient) *c04GenClient {
+	for _, c := range sh.byName {
+		if c == except {
+			continue
+		}
+		for _, k := range c.allIDs() {
+			if k == key {
+				return c
+			}
+		}
+	}
+
+	return nil
+}
+
+func (sh *c04Shadow) acceptable(c, stored *c04GenClient) bool {
+	if c.name == "" || len(c.allIDs()) == 0 || c.uid == 0 || c.flags[0] {
+		return false
+	}
+	for _, m := range c.macs {
+		if m == c04BadMAC {
+			return false
+		}
+	}
+	if o, ok := sh.byName[c.name]; ok && o != stored {
+		return false
+	}
+	for _, o := range sh.byName {
+		if o != stored && o.uid == c.uid {
+			return false
+		}
+	}
+	for _, k := range c.allIDs() {
+		if sh.owner(k, stored) != nil {
+			return false
+		}
+	}
+
+	return true
+}
+
+func (sh *c04Shadow) add(c *c04GenClient) {
+	if sh.acceptable(c, nil) {
+		sh.byName[c.name] = c
+	}
+}
+
+func (sh *c04Shadow) update(name string, c *c04GenClient) {
+	stored, ok := sh.byName[name]
+	if !ok {
+		return
+	}
+	cc := *c
+	cc.uid = stored.uid
+	if sh.acceptable(&cc, stored) {
+		delete(sh.byName, name)
+		sh.byName[cc.name] = &cc
+	}
+}
+
+func (sh *c04Shadow) pick(r *rand.Rand, except *c04GenClient) *c04GenClient {
+	var cs []*c04GenClient
+	for _, n := range c04Names {
+		if c, ok := sh.byName[n]; ok && c != except {
+			cs = append(cs, c)
+		}
+	}
+	if len(cs) == 0 {
+		return nil
+	}
+
+	return vutil.Pick(r, cs)
+}
+
+// c04Universe returns every identifier key of kind k.
+func c04Universe(k int) (keys []string) {
+	switch k {
+	case 0:
+		for _, s := range c04IPs {
+			keys = append(keys, "i"+netip.MustParseAddr(s).String())
+		}
+	case 1:
+		for _, s := range c04Subnets {
+			keys = append(keys, "s"+netip.MustParsePrefix(s).String())
+		}
+	case 2:
+		for _, m := range c04MACs {
+			keys = append(keys, "m"+m)
+		}
+	default:
+		for _, id := range c04CIDs {
+			keys = append(keys, "c"+id)
+		}
+	}
+
+	return keys
+}
+
+func (sh *c04Shadow) free(r *rand.Rand, k int, taken []string) (key string, ok bool) {
+	var fr []string
+	for _, key = range c04Universe(k) {
+		used := sh.owner(key, nil) != nil
+		for _, t := range taken {
+			used = used || t == key
+		}
+		if !used {
+			fr = append(fr, key)
+		}
+	}
+	if len(fr) == 0 {
+		return "", false
+	}
+
+	return vutil.Pick(r, fr), true
 }
 
 func c04Gen(r *rand.Rand, emit vutil.Emit) {
@@ -547,11 +726,98 @@ func c04Gen(r *rand.Rand, emit vutil.Emit) {
 		if r.IntN(4) == 0 {
 			nOps = 1 + r.IntN(8)
 		}
+		sh := &c04Shadow{byName: map[string]*c04GenClient{}}
+		// derive builds a variant of base (nil: a new client): every identifier of
+		// base kept, nFree unowned identifiers of kind kd added, and, if victim
+		// is not nil, one identifier of kind kd that victim owns inserted before /
+		// between / after the others of that kind.
+		derive := func(base, victim *c04GenClient, kd, nFree int) *c04GenClient {
+			c := genClient()
+			c.ips, c.subs, c.macs, c.cids = nil, nil, nil, nil
+			c.flags[0] = false
+			if c.uid == 0 {
+				c.uid = nextUID
+				nextUID++
+			}
+			if base != nil {
+				c.name = base.name
+				c.ips = append(c.ips, base.ips...)
+				c.subs = append(c.subs, base.subs...)
+				c.macs = append(c.macs, base.macs...)
+				c.cids = append(c.cids, base.cids...)
+			} else {
+				c.name = vutil.Pick(r, c04Names)
+				c.uid = nextUID
+				nextUID++
+			}
+			for ; nFree > 0; nFree-- {
+				if key, ok := sh.free(r, kd, c.ids(kd)); ok {
+					c.addID(key, r.IntN(len(c.ids(kd))+1))
+				}
+			}
+			if victim != nil {
+				if vk := victim.ids(kd); len(vk) > 0 {
+					n := len(c.ids(kd))
+					pos := []int{0, n, n, r.IntN(n + 1)}[r.IntN(4)]
+					c.addID(vutil.Pick(r, vk), pos)
+				}
+			}
+
+			return c
+		}
 		for k := 0; k < nOps; k++ {
-			switch x := r.IntN(100); {
+			switch x := r.IntN(118); {
+			case x >= 100 && x < 106:
+				// update keeping the own identifiers and adding free ones of one
+				// kind: builds clients with several identifiers of a kind
+				a := sh.pick(r, nil)
+				if a == nil {
+					continue
+				}
+				c := derive(a, nil, r.IntN(4), 1+r.IntN(2))
+				emit(append([]string{"C04.update", vutil.Hex(a.name)}, c.fields()...)...)
+				sh.update(a.name, c)
+			case x >= 106 && x < 113:
+				// update keeping k >= 1 own identifiers of a kind and adding one
+				// that ANOTHER client owns, at any position among them
+				a := sh.pick(r, nil)
+				b := sh.pick(r, a)
+				if a == nil || b == nil {
+					continue
+				}
+				kd := r.IntN(4)
+				for t := 0; t < 4 && len(b.ids(kd)) == 0; t++ {
+					kd = (kd + 1) % 4
+				}
+				nFree := 0
+				if len(a.ids(kd)) == 0 || r.IntN(3) == 0 {
+					nFree = 1 + r.IntN(2)
+				}
+				c := derive(a, b, kd, nFree)
+				if r.IntN(5) == 0 {
+					c.name = vutil.Pick(r, c04Names)
+				}
+				emit(append([]string{"C04.update", vutil.Hex(a.name)}, c.fields()...)...)
+				sh.update(a.name, c)
+			case x >= 113:
+				// add with several identifiers of one kind of which only one
+				// (mostly the last) belongs to another client
+				b := sh.pick(r, nil)
+				if b == nil {
+					continue
+				}
+				kd := r.IntN(4)
+				for t := 0; t < 4 && len(b.ids(kd)) == 0; t++ {
+					kd = (kd + 1) % 4
+				}
+				c := derive(nil, b, kd, 1+r.IntN(3))
+				emit(append([]string{"C04.add"}, c.fields()...)...)
+				sh.add(c)
+				live = append(live, c.name)
 			case x < 38:
 				c := genClient()
 				emit(append([]string{"C04.add"}, c.fields()...)...)
+				sh.add(c)
 				live = append(live, c.name)
 			case x < 66:
 				c := genClient()
@@ -563,6 +829,7 @@ func c04Gen(r *rand.Rand, emit vutil.Emit) {
 					c.name = name // not a rename
 				}
 				emit(append([]string{"C04.update", vutil.Hex(name)}, c.fields()...)...)
+				sh.update(name, c)
 				live = append(live, c.name)
 			case x < 80:
 				name := vutil.Pick(r, c04Names)
@@ -570,6 +837,7 @@ func c04Gen(r *rand.Rand, emit vutil.Emit) {
 					name = vutil.Pick(r, live)
 				}
 				emit("C04.remove", vutil.Hex(name))
+				delete(sh.byName, name)
 			case x < 93:
 				ip := vutil.Pick(r, addrs)
 				m := vutil.Pick(r, c04MACs)
